@@ -561,6 +561,11 @@ _CORPUS = [
     ("git", [["put", "a", 1], ["add", "a"], ["commit"], ["put", "b", 1], ["add", "b"], ["put", "a", 2], ["commit"], ["reopen"]]),  # C09-git-commit-copy
     ("bzr", [["mkdir", "d"], ["put", "d/f", 3], ["add", "d/f"], ["commit"], ["rmf", "d"], ["ren", "d/f", "c"]]),             # C09-bzr-rename-removed-inconsistent
     ("git", [["osmkdir", "d"], ["put", "d/x", 1], ["add", "d/x"], ["commit"], ["osrm", "d"], ["put", "d", 1], ["revert"]]),     # C09-git-revert-notadir
+    # file renamed inside a directory that is itself renamed / moved, then revert (both orders)
+    ("bzr", [["mkdir", "d"], ["put", "d/x", 1], ["add", "d/x"], ["put", "d/k", 2], ["add", "d/k"], ["commit"],
+             ["ren", "d/x", "d/z"], ["ren", "d", "e"], ["revert"], ["reopen"]]),
+    ("bzr", [["mkdir", "d"], ["mkdir", "d/s"], ["put", "d/s/x", 1], ["add", "d/s/x"], ["mkdir", "e"], ["commit"],
+             ["mv", "d/s", "e"], ["ren", "e/s/x", "e/s/z"], ["put", "e/s/z", 2], ["revert"], ["reopen"]]),
 ]
 # one tree lock around the whole sequence: reads go through the cached in-memory inventory
 _CORPUS_ONE_LOCK = [
@@ -613,8 +618,45 @@ _TAILS = [[["commit"], ["reopen"], ["revert"]],
           [["put", "d/c", 0], ["add", "d/c"], ["revert"]]]
 
 
+def _double_renames():
+    """a file renamed INSIDE its directory + that directory (or an ancestor) renamed or moved, in either order,
+    optionally with a content/mode edit: every change row of the revert then has a parent that no longer lives at its
+    basis path (the shapes single renames / moves into another directory do not reach)"""
+    out = []
+    dir_ops = {"a": [["ren", "a", "c"], ["mv", "a", "d"]],
+               "a/b": [["ren", "a/b", "a/c"], ["mv", "a/b", "d"], ["mv", "a/b", ""]],
+               "d": [["ren", "d", "c"], ["mv", "d", "a"], ["mv", "d", "a/b"]]}
+    files = {"a/e": ["a"], "a/b/c": ["a/b", "a"], "d/f": ["d"]}
+
+    def new_path(path, op):
+        src = op[1]
+        dst = op[2] if op[0] == "ren" else (op[2] + "/" if op[2] else "") + src.rsplit("/", 1)[-1]
+        return dst + path[len(src):] if (path == src or path.startswith(src + "/")) else path
+
+    for f, ds in files.items():
+        for dd in ds:
+            for dop in dir_ops[dd]:
+                z = f.rsplit("/", 1)[0] + "/z"
+                # file first, then the directory
+                out.append(([["ren", f, z], dop], new_path(z, dop)))
+                # directory first, then the file at its new place
+                out.append(([dop, ["ren", new_path(f, dop), new_path(z, dop)]], new_path(z, dop)))
+    return out
+
+
 def cases(rng, tier):
     mids = _structured()
+    # (0) double renames (file inside a renamed/moved directory) followed by revert; dirstate: all, git: a sample
+    dr = _double_renames()
+    for i, (m, zf) in enumerate(dr):
+        tail = [["revert"], ["reopen"]]
+        yield {"fmt": "bzr", "ops": _PRELUDE + m + tail}
+        if tier != "quick" or i % 3 == 0:
+            yield {"fmt": "git", "ops": _PRELUDE + m + tail}
+        if tier != "quick" or i % 2 == 1:
+            yield {"fmt": "bzr", "ops": _PRELUDE + m + [["put", zf, 0], ["chmod", zf, True]] + tail}
+        if tier != "quick" or i % 4 == 1:
+            yield {"fmt": "bzr", "one_lock": True, "ops": _PRELUDE + m + tail}
     # (1) every single structural op (exhaustive over sources and targets); quick: one tail each, in rotation;
     #     thorough: every tail
     if tier == "quick":
